@@ -66,9 +66,13 @@ def rules_c04(prop, repo):
     dom, rs = wrun(F, b, weight.by_sig(b, [p1, p2]))
     # identity operands
     R.instance()
-    id1 = [(v, pc) for v, pc in rs if pc and pc[0][0] == "is_zero" and pc[0][1] == p1.fields[2].vid and pc[0][4]]
-    id2 = [(v, pc) for v, pc in rs if len(pc) >= 2 and pc[0][0] == "is_zero" and not pc[0][4] and pc[1][0] == "is_zero" and pc[1][1] == p2.fields[2].vid and pc[1][4]]
-    ok = len(id1) == 1 and same_point(id1[0][0], p2) and len(id1[0][1]) == 1 and len(id2) == 1 and same_point(id2[0][0], p1) and len(id2[0][1]) == 2
+    def zt(pc, vid):
+        return next((c[4] for c in pc if c[0] == "is_zero" and c[1] == vid), None)
+    # every path on which the left operand tested identity hands back the right one untouched (whatever else it asked about the
+    # right operand first); every path with the left one not an identity and the right one an identity hands back the left one
+    id1 = [(v, pc) for v, pc in rs if zt(pc, p1.fields[2].vid) is True]
+    id2 = [(v, pc) for v, pc in rs if zt(pc, p1.fields[2].vid) is False and zt(pc, p2.fields[2].vid) is True]
+    ok = bool(id1) and all(same_point(v, p2) for v, _ in id1) and bool(id2) and all(same_point(v, p1) for v, _ in id2)
     R.check(ok, "%s:add:identity" % prop, "O + B = B and A + O = A are not the first two exits returning the other operand unchanged (paths: %d / %d)" % (len(id1), len(id2)), b.file_line(), b.rec["path"],
             sample={"O+B": "returns B unchanged" if ok else None, "A+O": "returns A unchanged" if ok else None})
     # arms by representation
@@ -171,10 +175,16 @@ def rules_c04(prop, repo):
                 ok &= same_point(v, p)
                 desc.append("identity unchanged")
             else:
-                good = isinstance(v, Adt) and v.name == G and v.fields[0].vid == p.fields[0].vid and v.fields[2].vid == p.fields[2].vid and v.fields[1].vid != p.fields[1].vid and v.fields[1].f == p.fields[1].f
+                # (where the path knows z = one(), weights are those of the operand with that fact applied)
+                syms = set()
+                for c in pc:
+                    if c[0] == "z==1" and c[2]:
+                        syms |= set(c[1])
+                want_f = weight.fsub0(p.fields[1].f, syms) if syms else p.fields[1].f
+                good = isinstance(v, Adt) and v.name == G and v.fields[0].vid == p.fields[0].vid and v.fields[2].vid == p.fields[2].vid and v.fields[1].vid != p.fields[1].vid and v.fields[1].f == want_f
                 ok &= good
                 desc.append("(x, −y, z)" if good else repr(v)[:60])
-        R2.check(ok and len(rs) == 2, "%s:neg" % prop, "G::neg is not {identity ↦ itself; (x,y,z) ↦ (x,−y,z)}: %s" % desc, nb.file_line(), nb.rec["path"], sample={"neg": desc})
+        R2.check(ok and len(rs) >= 2, "%s:neg" % prop, "G::neg is not {identity ↦ itself; (x,y,z) ↦ (x,−y,z)}: %s" % desc, nb.file_line(), nb.rec["path"], sample={"neg": desc})
         # the y transformation is a field negation
         tb = repo.tb(nb)
         negs = [t for _, t in nb.calls() if (t.get("fn") or {}).get("name") == "neg"]
@@ -289,6 +299,8 @@ def eq_truth_table(repo, b):
             elif nm in ("eq", "ne") and lv and lv <= {"z1", "z2"} and any(isinstance(a_, T) and a_[0] == "call" and a_[1].split("::")[-1] == "zero" for a_ in atom[3]) and len(lv) == 1:
                 k = 1 if lv == {"z1"} else 2
                 z[k] = bool(ch) if nm == "eq" else not bool(ch)
+            elif nm in ("eq", "ne") and lv in ({"z1"}, {"z2"}) and any(isinstance(a_, T) and a_[0] == "call" and a_[1].split("::")[-1] == "one" and not a_[3] for a_ in atom[3]):
+                pass          # asking whether a z is one (a representation class computed up front) says nothing the specification uses
             else:
                 unread.append(repr(atom)[:60])
         want = tri_or(tri_and(z[1], z[2]), tri_and(tri_not(z[1]), tri_not(z[2]), xe, ye))
